@@ -297,7 +297,7 @@ func writeXmlResult(buffer *bytes.Buffer, path string, result xsel.NodeSet) {
 		}
 
 		encoder := xml.NewEncoder(&nextResult)
-		err := encodeCursorToXml(encoder, i)
+		err := encodeCursorToXml(encoder, i, "")
 
 		if err != nil {
 			fmt.Fprintf(os.Stderr, "Error printing results for file %s: %s\n", path, err)
@@ -315,7 +315,10 @@ func writeXmlResult(buffer *bytes.Buffer, path string, result xsel.NodeSet) {
 	}
 }
 
-func encodeCursorToXml(encoder *xml.Encoder, cursor xsel.Cursor) error {
+// encodeCursorToXml writes the node as XML.  defaultSpace is the default
+// namespace in effect where the node is written (that of the enclosing
+// element in the output, if any).
+func encodeCursorToXml(encoder *xml.Encoder, cursor xsel.Cursor, defaultSpace string) error {
 	switch n := cursor.Node().(type) {
 	case xsel.Attribute:
 		return writeAttributeAsProcInst(encoder, n)
@@ -330,14 +333,14 @@ func encodeCursorToXml(encoder *xml.Encoder, cursor xsel.Cursor) error {
 
 		return encoder.EncodeToken(t)
 	case xsel.Element:
-		err := writeElementToken(encoder, cursor)
+		err := writeElementToken(encoder, cursor, defaultSpace)
 
 		if err != nil {
 			return err
 		}
 
 		for _, i := range cursor.Children() {
-			err = encodeCursorToXml(encoder, i)
+			err = encodeCursorToXml(encoder, i, n.Space())
 
 			if err != nil {
 				return err
@@ -360,7 +363,7 @@ func encodeCursorToXml(encoder *xml.Encoder, cursor xsel.Cursor) error {
 		return encoder.EncodeToken(t)
 	case xsel.Root:
 		for _, i := range cursor.Children() {
-			err := encodeCursorToXml(encoder, i)
+			err := encodeCursorToXml(encoder, i, defaultSpace)
 
 			if err != nil {
 				return err
@@ -402,13 +405,20 @@ func writeNamespaceAsProcInst(encoder *xml.Encoder, ns xsel.Namespace) error {
 	return encoder.EncodeToken(t)
 }
 
-func writeElementToken(encoder *xml.Encoder, elem xsel.Cursor) error {
+func writeElementToken(encoder *xml.Encoder, elem xsel.Cursor, defaultSpace string) error {
 	n := elem.Node().(xsel.Element)
 	t := xml.StartElement{
 		Name: xml.Name{
 			Space: n.Space(),
 			Local: n.Local(),
 		},
+	}
+
+	// The encoder declares the namespace of an element as the default
+	// namespace.  An element in no namespace inside such an element has to
+	// undeclare it, or it would be read back in its parent's namespace.
+	if n.Space() == "" && defaultSpace != "" {
+		t.Attr = append(t.Attr, xml.Attr{Name: xml.Name{Local: "xmlns"}, Value: ""})
 	}
 
 	for _, i := range elem.Attributes() {
